@@ -61,7 +61,13 @@ def norm(sp):
         sp["gs"] = "both" if sp["gs"] else "none"
     sp.setdefault("nested", False)
     sp.setdefault("redecl", False)
+    sp.setdefault("pseudo", "none")
     return sp
+
+
+PSEUDO = ("cv", "iv", "cviv")  # pseudo-fields: a ClassVar constant / an InitVar with a default / both (they are NOT fields: no slot, class attribute kept)
+PSEUDO_MAXF = {"quick": 1, "thorough": 2}
+PSEUDO_BASES = ("none", "slotted", "unslotted")
 FLAGS = [  # (frozen, eq, order, unsafe_hash); order requires eq
     (fr, eq, od, uh)
     for eq, od in ((True, False), (True, True), (False, False))
@@ -87,9 +93,9 @@ def field_patterns(n, with_base):
     return out
 
 
-def mkspec(fields, flags, base, gs, d, w, nested=False, redecl=False):
+def mkspec(fields, flags, base, gs, d, w, nested=False, redecl=False, pseudo="none"):
     fr, eq, od, uh = flags
-    return {"fields": fields, "frozen": fr, "eq": eq, "order": od, "unsafe_hash": uh, "base": base, "gs": gs, "dict": d, "weakref": w, "nested": nested, "redecl": redecl}
+    return {"fields": fields, "frozen": fr, "eq": eq, "order": od, "unsafe_hash": uh, "base": base, "gs": gs, "dict": d, "weakref": w, "nested": nested, "redecl": redecl, "pseudo": pseudo}
 
 
 def legal(sp):
@@ -112,7 +118,7 @@ def skey(sp):
 
 def sshort(sp):
     fl = "".join(c for c, on in zip("FEOU", (sp["frozen"], sp["eq"], sp["order"], sp["unsafe_hash"])) if on) or "-"
-    return f"fields={sp['fields'] or '-'} flags={fl} base={sp['base']} hooks={sp['gs']} dict={sp['dict']} weakref={sp['weakref']}" + (" nested" if sp.get("nested") else "") + (" redeclares-base_x" if sp.get("redecl") else "")
+    return f"fields={sp['fields'] or '-'} flags={fl} base={sp['base']} hooks={sp['gs']} dict={sp['dict']} weakref={sp['weakref']}" + (" nested" if sp.get("nested") else "") + (" redeclares-base_x" if sp.get("redecl") else "") + (f" pseudo={sp['pseudo']}" if sp.get("pseudo", "none") != "none" else "")
 
 
 def feature(sp):
@@ -137,6 +143,10 @@ def feature(sp):
         parts.append("weakref=True")
     if sp.get("nested"):
         parts.append("nested")
+    if "cv" in sp.get("pseudo", ""):
+        parts.append("classvar")
+    if "iv" in sp.get("pseudo", ""):
+        parts.append("initvar")
     for k, name in (("n", "field"), ("d", "default"), ("f", "default_factory")):
         if k in sp["fields"]:
             parts.append(name)
@@ -157,7 +167,7 @@ def fname(i):
 def source(sp, slot_child, cname="C", bare=False):
     fr = sp["frozen"]
     nested = bool(sp.get("nested"))
-    L = ["import dataclasses", "from typelib.py import classes", "SETSTATE_CALLS = []", "GETSTATE_CALLS = []"]
+    L = ["import dataclasses, typing", "from typelib.py import classes", "SETSTATE_CALLS = []", "GETSTATE_CALLS = []"]
     if sp["base"] != "none":
         L.append('STAGE = "base"')
         for bname, parent, deco, fline, _ in BASE_CHAIN[sp["base"]]:
@@ -180,6 +190,13 @@ def source(sp, slot_child, cname="C", bare=False):
             body.append(f"    {fname(i)}: int = {default_of(i)}")
         else:
             body.append(f"    {fname(i)}: list = dataclasses.field(default_factory=list)")
+    ps = sp.get("pseudo", "none")
+    if "cv" in ps:
+        body.append('    unit: typing.ClassVar[str] = "mm"')
+    if "iv" in ps:
+        body.append("    factor: dataclasses.InitVar[int] = 10")
+    if ps != "none":
+        body += ["    def label(self):", "        return (" + ("self.unit, " if "cv" in ps else "") + ("type(self).factor, " if "iv" in ps else "") + ")"]
     if sp["gs"] == "both":
         body += [
             "    def __getstate__(self):",
@@ -256,6 +273,8 @@ def judge_spec(sp, res=None, o_mod=None):
             stage = getattr(o_mod, "STAGE", "?")
             if stage == "base":
                 return None, False  # slotted base fixture broken: covered by the base=none specs
+            if has_slotted_ancestor(sp):
+                return [("base", "plain-child-of-slotted-base-does-not-build:" + str(out.excname), f"a plain dataclass deriving from the slotted base does not build: {out.excname}: {str(out.exc)[:120]}")], False
             raise RuntimeError(f"C19 harness: plain dataclass does not build for {sshort(sp)}: {out!r}")
     sys.modules[O_NAME] = o_mod
     cold.clear_all()
@@ -277,11 +296,38 @@ def judge_spec(sp, res=None, o_mod=None):
             raise
         if not STRICT_INHERITED_SLOTS:
             V = [v for v in V if v[:2] != ("slots", "extra:inherited-field")]
+        V = list(V) + _judge_pseudo(sp, o_mod.C, s_mod.C, count)
         return V, True
     finally:
         dropmod(S_NAME)
         if own_o:
             dropmod(O_NAME)
+
+
+def _judge_pseudo(sp, OC, SC, count=None):
+    """ClassVar / InitVar members are not fields: the class constant and the InitVar default stay class attributes, methods reading them answer alike"""
+    ps = sp.get("pseudo", "none")
+    if ps == "none":
+        return []
+    V = []
+    for name in (("unit",) if "cv" in ps else ()) + (("factor",) if "iv" in ps else ()):
+        if count:
+            count("pseudo-field")
+        a, b = call(getattr, OC, name), call(getattr, SC, name)
+        oa = ("ok", repr(a.val)) if a.ok else ("raises", a.excname)
+        ob = ("ok", repr(b.val)) if b.ok else ("raises", b.excname)
+        if oa != ob:
+            V.append(("pseudo-field", f"{name}:class-attribute-differs", f"C.{name}: original {oa}, slotted {ob}"))
+    info = info_of(sp)
+    args = [1] * sum(1 for _, k in info.params if k == "n")
+    if count:
+        count("pseudo-field")
+    a, b = call(lambda: OC(*args).label()), call(lambda: SC(*args).label())
+    oa = ("ok", repr(a.val)) if a.ok else ("raises", a.excname)
+    ob = ("ok", repr(b.val)) if b.ok else ("raises", b.excname)
+    if oa != ob:
+        V.append(("pseudo-field", "method-reading-it-differs", f"C(...).label(): original {oa}, slotted {ob}"))
+    return V
 
 
 _JCACHE: dict[str, dict] = {}
@@ -345,6 +391,11 @@ def _reductions(sp):
         yield {**sp, "weakref": False}
     if sp.get("nested"):
         yield {**sp, "nested": False}
+    if sp.get("pseudo", "none") == "cviv":
+        yield {**sp, "pseudo": "cv"}
+        yield {**sp, "pseudo": "iv"}
+    if sp.get("pseudo", "none") != "none":
+        yield {**sp, "pseudo": "none"}
 
 
 def minimal(sp, clause, mode):
@@ -402,6 +453,7 @@ def run_spec(sp, res, o_mod=None):
     res.hit(f"user-hooks:{sp['gs']}")
     res.hit(f"redeclared-inherited-field:{int(bool(sp.get('redecl')))}")
     res.hit(f"nested:{int(bool(sp.get('nested')))}")
+    res.hit(f"pseudo-fields:{sp.get('pseudo', 'none')}")
     key = h64(skey(sp), sorted((c, m) for c, m, _ in V))
     res.outcomes.add(key)
     if decorated:
@@ -603,24 +655,30 @@ def units(tier):
                     us.append(("P", fp, base, False, True))  # the child re-declares the inherited field base_x
                 if n <= NESTED_MAXF and base in NESTED_BASES:
                     us.append(("P", fp, base, True, False))
+                if n <= PSEUDO_MAXF[tier] and base in PSEUDO_BASES:
+                    us += [("P", fp, base, False, False, ps) for ps in PSEUDO]
     us += [("H", m, "", False, False) for m in MOVES]
     return us
 
 
 def unit_specs(unit):
     """[(o-world spec, [specs sharing that o-world])] of one program unit, deterministic order"""
-    _, a, base, nested, redecl = unit
+    _, a, base, nested, redecl, *rest = unit
+    pseudo = rest[0] if rest else "none"
     out = []
     for flags in FLAGS:
         for gs in HOOKS:
-            sp0 = mkspec(a, flags, base, gs, False, False, nested, redecl)
+            if pseudo != "none" and gs not in ("none", "both"):
+                continue
+            sp0 = mkspec(a, flags, base, gs, False, False, nested, redecl, pseudo)
             if legal(sp0):
-                out.append((sp0, [mkspec(a, flags, base, gs, d, w, nested, redecl) for d, w in DW]))
+                out.append((sp0, [mkspec(a, flags, base, gs, d, w, nested, redecl, pseudo) for d, w in DW]))
     return out
 
 
 def run_unit(unit, tier, res):
-    kind, a, base, nested, redecl = unit
+    kind, a, base, nested, redecl, *rest = unit
+    pseudo = rest[0] if rest else "none"
     if kind == "H":
         for h in histories(a, HLEN[tier]):
             run_history(h, res)
@@ -635,6 +693,17 @@ def run_unit(unit, tier, res):
                 res.skipped += len(group)
                 res.hit("skip:base-fixture", len(group))
                 continue
+            if has_slotted_ancestor(sp0):
+                # a plain dataclass deriving from a slotted(...) base always builds when the base is what the decoration of THAT base should
+                # return (same frozen-ness, same fields): the decoration of the base returned something else
+                res.programs += 1
+                res.violation(
+                    f"C19/base/plain-child-of-slotted-base-does-not-build/{out.excname}",
+                    f"a plain dataclass deriving from the slotted base of {sshort(sp0)} does not build: {out.excname}: {str(out.exc)[:120]} "
+                    "(the class returned by decorating the base is not the base's own slotted twin)",
+                    {"kind": "P", "spec": sp0, "found_in": sshort(sp0)},
+                )
+                continue
             raise RuntimeError(f"C19 harness: plain dataclass does not build for {sshort(sp0)}: {out!r}")
         try:
             for sp in group:
@@ -642,7 +711,7 @@ def run_unit(unit, tier, res):
         finally:
             dropmod(O_NAME)
     if len(res.samples) < 3:
-        sp = mkspec(a, FLAGS[-1], base, "both", True, True, nested, redecl)
+        sp = mkspec(a, FLAGS[-1], base, "both", True, True, nested, redecl, pseudo)
         res.samples.append({"spec": sp, "source_s": source(sp, True)})
 
 
@@ -677,6 +746,8 @@ def meta(tier):
         % (nf, list(BASES), list(HOOKS), REDECL_DEFAULT, NESTED_MAXF, list(NESTED_BASES), n_specs, n_redecl, n_chain, n_nested, MAXF_EXTRA[tier], nf, HLEN[tier], len(MOVES), ",".join(MOVES), n_hist),
         "bounds": {"max_fields": nf, "max_fields_chain_and_redeclare": MAXF_EXTRA[tier], "specs": n_specs, "history_len": HLEN[tier], "histories": n_hist, "moves": MOVES, "bases": list(BASES), "hooks": list(HOOKS), "pickle_protocols": list(SM.PICKLE_PROTOCOLS)},
         "assumptions": [
+            f"specs of <= {PSEUDO_MAXF[tier]} own fields and base in {list(PSEUDO_BASES)} are additionally generated with pseudo-fields (ClassVar constant `unit`, InitVar `factor` with a default, both; hooks none/both): "
+            "they are not fields - no slot for them, the class attribute and a method reading it answer as in the original",
             "the original world keeps the same (possibly slotted) bases: only the child's decorator differs between module o and module s",
             "base frozen-ness follows the child (dataclasses forbid mixing); base kinds slotted_nw / slotted_dict (weakref=False / dict=True) are added to the three of the design",
             "a field inherited from an unslotted base counts as inherited, and so does an inherited field that the child re-declares: a slot for it is reported as C19/slots/.../extra:inherited-field (STRICT_INHERITED_SLOTS)",
